@@ -280,9 +280,7 @@ theorem Dict.WF_union {α} {a : Dict α} (h : a.WF) (b : Dict α) : (a.union b).
 
 /-- `{**a, **b}[k]`: the right operand wins -/
 theorem Dict.get?_union {α} (a b : Dict α) (hb : b.WF) (k : String) :
-    (a.union b).get? k = match b.get? k with
-      | some v => some v
-      | none => a.get? k := by
+    (a.union b).get? k = (b.get? k).or (a.get? k) := by
   induction b generalizing a with
   | nil => simp [Dict.union, Dict.get?_nil]
   | cons p b ih =>
